@@ -218,6 +218,31 @@ func loadAll(repo string) (*Gen, error) {
 			into[h] = true
 		}
 	}
+	// `stable T.*` stands for every field of T, including fields added later
+	var expanded []string
+	for _, ent := range cs.Stable {
+		i := strings.Index(ent, "|")
+		dir, tf := ent[:i], ent[i+1:]
+		if !strings.HasSuffix(tf, ".*") {
+			expanded = append(expanded, ent)
+			continue
+		}
+		sp := g.pkgs[dir]
+		if sp == nil {
+			continue
+		}
+		obj := sp.Pkg.Scope().Lookup(strings.TrimSuffix(tf, ".*"))
+		if obj == nil {
+			cs.Errors = append(cs.Errors, "cannot resolve type "+tf)
+			continue
+		}
+		if st, ok := obj.Type().Underlying().(*types.Struct); ok {
+			for k := 0; k < st.NumFields(); k++ {
+				expanded = append(expanded, dir+"|"+strings.TrimSuffix(tf, "*")+st.Field(k).Name())
+			}
+		}
+	}
+	cs.Stable = expanded
 	resolveTF(cs.Stable, g.stable)
 	resolveTF(cs.JSPreserved, g.jsPreserved)
 	g.typeInv = map[string]*ssa.Function{}
